@@ -391,6 +391,10 @@ def _apply_factor_facts(t, facts):
     return Term(t.coeff, fs, deltas, t.sums)
 
 
+def _is_literal_index(n):
+    return isinstance(n, str) and n.startswith("#") and n[1:].lstrip("-").isdigit()
+
+
 def _contract_deltas(t, facts):
     """Contract deltas touching dummies; canonicalise free-free deltas."""
     factors = list(t.factors)
@@ -404,6 +408,8 @@ def _contract_deltas(t, facts):
                 deltas.pop(k)
                 changed = True
                 break
+            if _is_literal_index(a) and _is_literal_index(b):
+                return None         # two different literal positions never coincide
             tgt = None
             if a in sums:
                 tgt = (a, b)
@@ -582,6 +588,8 @@ def normal(expr, facts=NOFACTS):
             if cur is None:
                 break
             cur = _contract_deltas(cur, facts)
+            if cur is None:
+                break
             cur, ch = _apply_inverse(cur, facts)
             if not ch and (tuple(f.key() for f in cur.factors), tuple(cur.deltas), cur.sums) == \
                     (tuple(f.key() for f in before[0]), tuple(before[1]), before[2]):
